@@ -5,6 +5,7 @@ import Sigc.Lemmas.StepIter2
 import Sigc.Lemmas.StepIter3
 import Sigc.Lemmas.StepIter4
 import Sigc.Lemmas.StepIter5
+import Sigc.Lemmas.StepWF3
 /-!
 # C13 — emission results: last slot's value, or the accumulator's verdict
 
@@ -752,5 +753,26 @@ example : ∃ calls, TurnsRun exProg 1 5 {} [2, 3] 9 calls {} .ok 9 ∧ 9 = ((ca
     rw [spec_turns_unfold, show specCallable {} 1 3 = none from rfl]
     simp only
     rw [Spec.turns])
+
+/-! ## top-level form of `bidirectional`: every list of every reachable state -/
+
+/-- in every state reached by any run of any program (and, by `Sigc.StepWF.execOp_WF`, in every state inside
+    a run) the cell ids of every slot list are pairwise distinct, so `--(++it) = it` and `++(--it) = it`
+    wherever both are defined: the `Nodup` hypothesis of `bidirectional` always holds -/
+theorem bidirectional_run (f : Nat) (P : Prog) (ls : List Line) (s : St) (i k n : Nat) (im : Impl)
+    (hrun : runTop f P {} ls = some s) (hi : aget s.impls i = some im) :
+    (im.cells.map (·.id)).Nodup ∧ (succId im.cells k = some n ↔ predId im.cells n = some k) := by
+  have hnd := Sigc.StepWF.nodup_ids_of_aget (Sigc.StepWF.runTop_WF f P ls s hrun).impls hi
+  exact ⟨hnd, bidirectional_iff im.cells k n hnd⟩
+
+/-- the same for every well-formed state (states inside emissions included) -/
+theorem bidirectional_wf (s : St) (i k n : Nat) (im : Impl) (hw : Sigc.StepWF.WF s) (hi : aget s.impls i = some im) :
+    succId im.cells k = some n ↔ predId im.cells n = some k :=
+  bidirectional_iff im.cells k n (Sigc.StepWF.nodup_ids_of_aget hw.impls hi)
+
+example : Sigc.StepWF.WF Sigc.StepTrack.exStT ∧
+    (succId [({ id := 5, slot := {}, linked := true } : Cell), { id := 12, slot := {}, linked := true }] 5 = some 12) := by
+  decide
+
 
 end Sigc.C13
